@@ -394,7 +394,12 @@ class NameConverter(ast.NodeTransformer):
         ovld_mangled,
         map_mangled,
         code_mangled,
+        own_syms=(),
     ):
+        # own_syms: those of the recurse symbols that are the function's own
+        # name. In a function that takes self, that name is not bound to
+        # self: f(self, x) is written in full
+        self.own_syms = own_syms
         self.analysis = anal
         self.recurse_syms = recurse_sym or ()
         self.call_next_sym = call_next_sym
@@ -437,7 +442,11 @@ class NameConverter(ast.NodeTransformer):
             return node
         if node.id in self.recurse_syms:
             new_node = ast.Name(self.ovld_mangled, ctx=node.ctx)
-            if self.analysis.is_method and isinstance(node.ctx, ast.Load):
+            if (
+                self.analysis.is_method
+                and isinstance(node.ctx, ast.Load)
+                and node.id not in self.own_syms
+            ):
                 # The dispatch function is not bound: as a value (map(recurse,
                 # xs), recurse(*args)), it stands for the method of self
                 new_node = ast.Call(
@@ -466,6 +475,9 @@ class NameConverter(ast.NodeTransformer):
             return self.generic_visit(node)
 
         is_recurse = node.func.id in self.recurse_syms
+        if self.analysis.is_method and node.func.id in self.own_syms:
+            # f(self, x): an ordinary call of the dispatch function
+            return self.generic_visit(node)
 
         def _needs_binding(kw):
             # **kwargs, or a positional parameter given by keyword: only the
@@ -674,12 +686,26 @@ def adapt_function(fn, ovld, newname, slot=None):
             fn.__closure__,
         )
     )
+    own_syms = list(
+        _search_names(
+            fn.__code__,
+            (ovld, ovld.dispatch),
+            fn.__globals__,
+            fn.__closure__,
+        )
+    )
     cn_syms = list(
         _search_names(fn.__code__, (call_next,), fn.__globals__, fn.__closure__)
     )
     if rec_syms or cn_syms:
         return recode(
-            fn, ovld, tuple(rec_syms), cn_syms and cn_syms[0], newname, slot
+            fn,
+            ovld,
+            tuple(rec_syms),
+            cn_syms and cn_syms[0],
+            newname,
+            slot,
+            own_syms=tuple(own_syms),
         )
     else:
         return _mark_code(rename_function(fn, newname), slot)
@@ -762,7 +788,9 @@ class _Mangler(ast.NodeTransformer):
         return node
 
 
-def recode(fn, ovld, recurse_sym, call_next_sym, newname, slot=None):
+def recode(
+    fn, ovld, recurse_sym, call_next_sym, newname, slot=None, own_syms=()
+):
     # (names that end in __ are not mangled inside a class statement)
     ovld_mangled = f"___OVLD{ovld.id}__"
     map_mangled = f"___MAP{ovld.id}__"
@@ -803,6 +831,7 @@ def recode(fn, ovld, recurse_sym, call_next_sym, newname, slot=None):
         ovld_mangled=ovld_mangled,
         map_mangled=map_mangled,
         code_mangled=code_mangled,
+        own_syms=own_syms,
     ).visit(tree)
     new.body[0].decorator_list = []
     _verif.point("recode.ast", fn=fn, tree=new)
